@@ -420,10 +420,16 @@ pub trait PixelDataWriter {
     ) -> EncodeResult<Vec<AttributeOp>> {
         let frames = src.number_of_frames().unwrap_or(1);
         let mut out = Vec::new();
+        // each fragment takes an 8-byte item header
+        // plus its value padded to an even length
+        let item_size = |fragment: &Vec<u8>| 8 + ((fragment.len() as u32 + 1) & !1);
+        // offset of the next frame's item from the first item after the offset table
+        let mut offset: u32 = dst.iter().map(item_size).sum();
         for frame in 0..frames {
             let mut frame_data = Vec::new();
             out = self.encode_frame(src, frame, options.clone(), &mut frame_data)?;
-            offset_table.push(frame_data.len() as u32 + 8 * (frame + 1));
+            offset_table.push(offset);
+            offset += item_size(&frame_data);
             dst.push(frame_data);
         }
         Ok(out)
